@@ -7,6 +7,7 @@ WR = "aiohttp/web_response.py"
 ST = "aiohttp/streams.py"
 CN = "aiohttp/connector.py"
 HP = "aiohttp/http_parser.py"
+MP = "aiohttp/multipart.py"
 
 
 def B(id, file, old, new, expect, why, props, count=1):
@@ -32,4 +33,6 @@ CASES = [
  N("headers-fresh-copy", CL, "        result = CIMultiDict(self._default_headers)\n", "        result = self._default_headers.copy()\n", "copy() instead of the constructor", ("C17",)),
  B("eof-resume-when-paused", ST, "        self._protocol.resume_reading(resume_parser=False)\n", "        if self._protocol._reading_paused and self._size:\n            self._protocol.resume_reading(resume_parser=False)\n", ["C08.flow.eof", "C05.resume.eof"], "an empty stream that paused on chunk ends is not resumed at EOF", ("C08", "C05")),
  N("close-recheck-early-return", CN, "            else:\n                if self._closed:\n                    proto.close()\n                    raise ClientConnectionError(\"Connector is closed.\")\n", "            if self._closed:\n                proto.close()\n                raise ClientConnectionError(\"Connector is closed.\")\n", "the re-check behind the try statement instead of in its else clause", ("C07",)),
+ N("part-headers-local", MP, "            await writer.write(b\"--\" + self._boundary + b\"\\r\\n\")\n            await writer.write(part._binary_headers)\n", "            part_headers = part._binary_headers\n            await writer.write(b\"--\" + self._boundary + b\"\\r\\n\")\n            await writer.write(part_headers)\n", "the header block of the part in a local, rendered behind _part_encodings()", ("C19", "C04")),
+ B("part-headers-before-encodings", MP, '        for part, _e, _te in self._parts:\n            encoding, te_encoding = self._part_encodings(part)\n            if self._is_form_data:\n                # https://datatracker.ietf.org/doc/html/rfc7578#section-4.2\n                assert CONTENT_DISPOSITION in part.headers\n                disposition = part.headers[CONTENT_DISPOSITION]\n                # a non-ASCII name is sent in the extended form, name*=\n                assert "name=" in disposition or "name*=" in disposition\n\n            await writer.write(b"--" + self._boundary + b"\\r\\n")\n            await writer.write(part._binary_headers)\n', '        for part, _e, _te in self._parts:\n            part_headers = part._binary_headers\n            encoding, te_encoding = self._part_encodings(part)\n            if self._is_form_data:\n                # https://datatracker.ietf.org/doc/html/rfc7578#section-4.2\n                assert CONTENT_DISPOSITION in part.headers\n                disposition = part.headers[CONTENT_DISPOSITION]\n                # a non-ASCII name is sent in the extended form, name*=\n                assert "name=" in disposition or "name*=" in disposition\n\n            await writer.write(b"--" + self._boundary + b"\\r\\n")\n            await writer.write(part_headers)\n', ["C19.headers.order"], "the header block that is sent was rendered before the per-part encodings (and the Content-Length they stamp) were fixed", ("C19",)),
 ]
